@@ -1856,7 +1856,7 @@ func TestC14(t *testing.T) {
 	seed := hx.Seed()
 	out := hx.NewOut()
 	defer out.Close("correspondence of the C14 store-level model with the real app (every op line compared) + property monitors on real state after every migration and block")
-	nSeq := hx.N(40, 400)
+	nSeq := hx.N(70, 400)
 	nOps := 70
 	if hx.Tier() == "thorough" {
 		nOps = 140
